@@ -133,9 +133,20 @@ type Replay struct {
 	Witness  map[string]string `json:"witness"`
 	Trace    []string          `json:"trace"` // human-readable rendering of the minimised plan
 	Plan     Plan              `json:"plan"`
+	// Prelude: the violation depends on state the library carried over from earlier runs of the same
+	// worker process; replay re-executes runs Offset, Offset+Stride, ... < Upto (regenerated from Seed)
+	// before the plan.
+	Prelude *Prelude `json:"prelude,omitempty"`
 	Original struct {
 		Seed uint64 `json:"seed"`
 		Run  int    `json:"run"`
 		Ops  int    `json:"ops"`
 	} `json:"original"`
+}
+
+type Prelude struct {
+	Seed   uint64 `json:"seed"`
+	Offset int    `json:"offset"`
+	Stride int    `json:"stride"`
+	Upto   int    `json:"upto"`
 }
